@@ -34,10 +34,12 @@ CYCLE_HORIZON = 8          # documented: at most 5 cycles
 PURE_CALL_HORIZON = 400_000
 J_MENU = ((-1, 0.1), (1, 1.0), (0, 0.5))
 WELL_BEHAVED = 1e8         # closed-form envelope of a well-behaved system
-# analytic agreement: RK45 runs at rtol 1e-3 / atol 1e-6; the worst deviation
-# measured on the unchanged tree over the thorough alphabet is recorded in the
-# evidence (part "programs", worst_analytic_dev); the limit is > 10x that.
-ANALYTIC_REL = 0.02
+# analytic agreement: RK45 runs at rtol 1e-3 / atol 1e-6. Worst deviation
+# measured on the unchanged tree: 0.21 % (quick alphabet), 0.54 % (thorough
+# alphabet) of the largest closed-form state of the trajectory; the limit is
+# fixed at > 10x that. The measured value is written to the evidence (part
+# "programs", worst_analytic_dev).
+ANALYTIC_REL = 0.06
 ANALYTIC_ABS = 1e-6
 
 
@@ -190,8 +192,8 @@ class Stub:
     """
     The controller handed to ``run_ode``: base + faults, counting everything.
 
-    ``fault(cycle, phase, index, t)`` decides whether this call returns the
-    fault value; phase is "I" (integration: ``out`` owns its memory) or "P"
+    ``fault(cycle, phase, index, t, call number)`` decides whether this call
+    returns the fault value; phase is "I" (integration: ``out`` owns its memory) or "P"
     (interpolation: ``out`` is a view of the result matrix), index the call
     number within the phase of the cycle.
     """
@@ -207,7 +209,6 @@ class Stub:
         self.cycles = []          # per cycle: dict of what happened
         self.cur = None
         self.rows = []            # P-phase calls of the current cycle
-        self.deriv_insane = False
 
     def __call__(self, state, t, params, out):
         self.calls += 1
@@ -531,13 +532,15 @@ def program_alphabet(quick):
     """All programs (without start/steps/T), simplest first."""
     progs = []
     lin_as = (-1.0, 20.0, 0.0) if quick else (-2.0, -1.0, 0.0, 0.1, 1.0,
-                                               20.0)
+                                               20.0, -20.0, 5.0)
     values = ("1e11", "nan") if quick else ("1e11", "1e50", "nan", "inf",
                                             "-inf")
     for a in lin_as:
         eq = ["lin", a, 2]
         cs = [["const", 0.0], ["const", 1.0], ["const", -3.0],
               ["ks0", -1.0], ["ks0", 0.5]]
+        if not quick:
+            cs += [["const", 1e9], ["ks0", -20.0], ["ks0", 3.0]]
         for c in cs:
             progs.append((eq, c, 1))
         progs.append((eq, ["ks0", -1.0], 2))
@@ -568,9 +571,10 @@ def program_alphabet(quick):
         bases.append((["sys", "3oscillators"], ["ks0", -1.0]))
     for eq, b in bases:
         for v in values:
-            for tau in ("0", "0.1", "1", "0.98T"):
+            for tau in ("0", "0.1", "1", "0.98T") if quick else (
+                    "0", "0.1", "1", "0.5T", "0.98T"):
                 inj.append((eq, ["after_t", b, tau, v], 1))
-            for m in (1, 2, 5, 50):
+            for m in (1, 2, 5, 50) if quick else (1, 2, 3, 5, 8, 50, 500):
                 inj.append((eq, ["mth_call", b, m, v], 1))
             for ph in ("I", "P"):
                 for tau in ("0", "0.5T"):
@@ -635,13 +639,16 @@ def script_bases(quick):
                   "cd": 1, "start": [1.0, -2.0, 0.5], "steps": 4, "T": 0.5})
         b.append({"eq": ["lin", 0.1, 2], "ctrl": ["const", 1.0], "cd": 2,
                   "start": [0.0, 0.0], "steps": 30, "T": 1e-9})
+        b.append({"eq": ["sys", "3oscillators"], "ctrl": ["ks0", -1.0],
+                  "cd": 1, "start": [0.1, 0.0, 0.1, 0.0, 0.1, 0.0],
+                  "steps": 100, "T": 5.0})
     return b
 
 
 def all_scripts(quick):
     """(base index, script, value, trigger I, trigger P), fewest faults 1st."""
-    values = ("1e11", "nan") if quick else ("1e11", "1e50", "nan", "inf",
-                                            "-inf")
+    values = ("1e11", "nan", "-inf") if quick else (
+        "1e11", "1e50", "nan", "inf", "-inf")
     res = []
     for bi, b in enumerate(script_bases(quick)):
         t_limit = b["T"]
@@ -652,8 +659,8 @@ def all_scripts(quick):
               ["idx", steps - 1], ["t>", 0.1 * t_limit],
               ["t>", 0.98 * t_limit]]
         if quick:
-            ti = [ti[0], ti[2], ti[4]]
-            tp = [tp[0], tp[2], tp[3]]
+            ti = [ti[0], ti[2], ti[3], ti[4]]
+            tp = [tp[0], tp[1], tp[3], tp[5]]
         for k in range(6):
             for script in itertools.product("IP", repeat=k):
                 s = "".join(script)
@@ -851,7 +858,7 @@ def run(ctx: Ctx) -> None:
     ctx.assume("real-valued states, parameters, trigger times and time "
                "limits only on the listed grids; fault values 1e11, 1e50, "
                "NaN, +inf, -inf")
-    ctx.assume("analytic agreement is decided at 2 % of the trajectory's "
+    ctx.assume("analytic agreement is decided at 6 % of the trajectory's "
                "largest closed-form state + 1e-6 (RK45 at rtol 1e-3)")
     ctx.assume("the solver-status 'failed' branch (step size underflow "
                "without leaving the sane range) is not reached by any "
